@@ -119,6 +119,18 @@ func ApplyEdit(w *WS, s Step) string {
 		}
 		w.Files[name] = pickStr(contentPool, s.V+s.F)
 		return "add " + name
+	case "toggle-file":
+		dirs := globDirs(t)
+		if len(dirs) == 0 {
+			return ""
+		}
+		name := full(path.Join(pickStr(dirs, s.F), "toggle.txt"))
+		if _, exists := w.Files[name]; exists {
+			delete(w.Files, name)
+			return "toggle off " + name
+		}
+		w.Files[name] = "toggled"
+		return "toggle on " + name
 	case "remove-file":
 		if len(inputs) == 0 {
 			return ""
@@ -261,16 +273,32 @@ func ApplyExt(w *WS, e *Ext, s Step) string {
 		e.Fail[id] = true
 		return "fail " + t.Label()
 	case "clear-switches":
-		if len(e.Fail)+len(e.SlowSec)+len(e.SkipOut) == 0 {
+		if len(e.Fail)+len(e.SlowSec)+len(e.SkipOut)+len(e.SelfKill)+len(e.WrongEst) == 0 {
 			return ""
 		}
-		e.Fail, e.SlowSec, e.SkipOut = map[string]bool{}, map[string]int{}, map[string]int{}
+		e.Fail, e.SlowSec, e.SkipOut, e.SelfKill, e.WrongEst = map[string]bool{}, map[string]int{}, map[string]int{}, map[string]bool{}, map[string]bool{}
 		return "clear switches"
+	case "set-selfkill":
+		if e.SelfKill[id] {
+			return ""
+		}
+		e.SelfKill[id] = true
+		return "selfkill " + t.Label()
+	case "set-wrongestablish":
+		if len(t.Checks) == 0 {
+			return ""
+		}
+		c := t.Checks[abs(s.F)%len(t.Checks)]
+		if !c.Establish || c.Expected == "" || e.WrongEst[c.Marker] {
+			return ""
+		}
+		e.WrongEst[c.Marker] = true
+		return "wrongestablish " + c.Marker
 	case "set-slow":
 		if t.Timeout == "" || e.SlowSec[id] > 0 {
 			return ""
 		}
-		e.SlowSec[id] = 20
+		e.SlowSec[id] = 40
 		return "slow " + t.Label()
 	case "set-skipout":
 		if len(t.OutFiles) == 0 {
